@@ -153,12 +153,15 @@ struct World {
 
   ReqRec *new_rec() { ReqRec *r = new ReqRec; r->w = this; r->idx = (int)recs.size(); recs.push_back(r); return r; }
 
+  bool stop = false;                    // set from a callback together with event_base_loopbreak(): the harness stops driving the loop at once
   void pump() {
     for (int i = 0; i < 300; i++) {
+      if (stop) return;
       last_nready = 0;
       int r = event_base_loop(base, EVLOOP_NONBLOCK);
       passes++;
       CHECK(r >= 0, "harness/loop-error", "event_base_loop=%d", r);
+      if (stop) return;
       drain();
       if (last_nready == 0 && event_base_get_num_events(base, EVENT_BASE_COUNT_ACTIVE) == 0) return;
     }
